@@ -81,20 +81,20 @@ type submitted struct {
 
 // strace is everything observed while executing a relay-side history.
 type strace struct {
-	srv      *signaling_rpc_server.Server
-	live     map[pair]*srvSession
-	gated    map[pair]chan struct{}
-	all      []*srvSession
-	usurped  []*srvSession // replaced by a newer call
-	listens  map[int]*srvListen
+	srv     *signaling_rpc_server.Server
+	live    map[pair]*srvSession
+	gated   map[pair]chan struct{}
+	all     []*srvSession
+	usurped []*srvSession // replaced by a newer call
+	listens map[int]*srvListen
 	// regTimeout: a call did not register within the bound; the case is not decidable (discarded)
 	regTimeout bool
-	allLis   []*srvListen
-	usurpedL []*srvListen
-	subs     []submitted
-	seq      uint64
-	hist     []string
-	classes  map[string]bool
+	allLis     []*srvListen
+	usurpedL   []*srvListen
+	subs       []submitted
+	seq        uint64
+	hist       []string
+	classes    map[string]bool
 	// lastSentSeq: last message seqno p submitted on (p,q)
 	lastSentSeq map[pair]uint64
 }
